@@ -239,6 +239,7 @@ struct Sim {
     devs: Vec<Dev>,
     threads: Vec<Th>,
     locs: HashMap<usize, Loc>,
+    loc_ids: HashMap<usize, usize>,
     arenas: Vec<Arena>,
     sc: VC,
     now_ns: u64,
@@ -699,12 +700,19 @@ pub enum Op {
 /// The instrumented atomics funnel every operation through here.
 /// `f(cur)` returns the new value for stores/RMWs (None = RMW fails).
 pub fn atomic_op(addr: usize, width: usize, read_real: &dyn Fn() -> u64, op: Op, f: &mut dyn FnMut(u64) -> Option<u64>, write: &dyn Fn(u64)) -> Result<u64, u64> {
-    yield_point(addr as u64 & 0xfff);
+    // location ids are first-arrival ordinals, never addresses (ASLR must not leak into logs/signatures)
+    let site = {
+        let mut g = lock();
+        let s = g.as_mut().unwrap();
+        let n = s.loc_ids.len();
+        *s.loc_ids.entry(addr).or_insert(n)
+    };
+    yield_point(site as u64);
     let me = me();
     let mut g = lock();
     let s = g.as_mut().unwrap();
     let real_now = read_real();
-    let nloc = s.locs.len();
+    let nloc = site;
     let loc = s.locs.entry(addr).or_insert_with(|| {
         let mut d = VecDeque::new();
         d.push_back(StoreRec { val: real_now, wclock: [0; MAXT], rel: [0; MAXT] });
@@ -763,7 +771,7 @@ pub fn atomic_op(addr: usize, width: usize, read_real: &dyn Fn() -> u64, op: Op,
                     idx = cands[k];
                     chosen_stale = true;
                     s.stale_reads += 1;
-                    s.sched_sig = fnv(fnv(fnv(s.sched_sig, 0x57), addr as u64 & 0xfff), (last - idx) as u64);
+                    s.sched_sig = fnv(fnv(fnv(s.sched_sig, 0x57), s.loc_ids[&addr] as u64), (last - idx) as u64);
                 }
             }
         }
@@ -850,7 +858,7 @@ pub fn atomic_op(addr: usize, width: usize, read_real: &dyn Fn() -> u64, op: Op,
                             && s.decide(K_CASFAIL, |s| if s.rng_mem.f64() < s.cfg.cas_weak_fail_prob { 1 } else { 0 }) != 0;
                         if spurious {
                             s.cas_spurious += 1;
-                            s.sched_sig = fnv(fnv(s.sched_sig, 0x43), addr as u64 & 0xfff);
+                            s.sched_sig = fnv(fnv(s.sched_sig, 0x43), loc_id);
                             s.threads[me].clock[me] += 1;
                             let time = s.threads[me].clock[me];
                             s.locs.get_mut(&addr).unwrap().note_access(me, time, last);
@@ -1059,6 +1067,10 @@ impl JoinHandle {
                     return Ok(());
                 }
                 St::Crashed => {
+                    // observing that a participant is dead (in reality: via the kernel) is a
+                    // synchronisation: everything it wrote before dying is visible afterwards
+                    let c = s.threads[self.tid].clock;
+                    vc_join(&mut s.threads[me].clock, &c);
                     return Err(());
                 }
                 _ => {
@@ -1102,7 +1114,7 @@ pub fn block_on(key: usize, deadline_ns: Option<u64>) -> bool {
     }
     s.threads[me].st = St::BlockedKey { key, deadline: deadline_ns };
     s.threads[me].woken = false;
-    s.log_event(me, "block", key as u64 & 0xfff, 0, 0);
+    s.log_event(me, "block", 0, 0, 0);
     leave(g, me, false);
     let g = lock();
     g.as_ref().unwrap().threads[me].woken
@@ -1235,6 +1247,7 @@ pub fn run<F: FnOnce() + Send + 'static>(cfg: RunCfg, decisions: Decisions, body
         devs: Vec::new(),
         threads: Vec::new(),
         locs: HashMap::new(),
+        loc_ids: HashMap::new(),
         arenas: Vec::new(),
         sc: [0; MAXT],
         now_ns: 1_000_000_000,
